@@ -1128,7 +1128,14 @@ class MMOracle:
             "List": typing.List,
             "Set": typing.Set,
         }
-        exec(compile(self.tree, "<meta-model>", "exec"), ns)  # the meta-model text is ordinary Python
+        # The meta-model text is ordinary Python, except that the front end (which never executes it) accepts a class
+        # declared BEFORE its base.  Only functions, constants and enumerations are needed to evaluate an invariant
+        # body, so the other classes are left out of the executed module.
+        executed = ast.Module(
+            body=[n for n in self.tree.body if not isinstance(n, ast.ClassDef) or any(isinstance(b, ast.Name) and b.id == "Enum" for b in n.bases)],
+            type_ignores=[],
+        )
+        exec(compile(executed, "<meta-model>", "exec"), ns)
         self.ns = ns
         self.pattern_funcs: set = set()
         self.const_sets: Dict[str, str] = {}  # name -> element type text
@@ -1366,27 +1373,43 @@ class MMOracle:
         return out
 
 
-def admit_value(c: Any, v: Any) -> Tuple[bool, str]:
-    """Do the inferred constraints `c` (infer_for_schema.Constraints or None) admit the value? (+ rejecting dimension)"""
+def admit_dims(c: Any, v: Any) -> Dict[str, bool]:
+    """Which of the inferred length range / pattern list / literal set (infer_for_schema.Constraints or None) admit v."""
+    dims = {"len": True, "pattern": True, "set": True}
     if c is None:
-        return True, ""
+        return dims
     try:
         if c.len_constraint is not None:
             lc = c.len_constraint
             if (lc.min_value is not None and len(v) < lc.min_value) or (lc.max_value is not None and len(v) > lc.max_value):
-                return False, "len"
+                dims["len"] = False
+    except BaseException:  # noqa
+        dims["len"] = False
+    try:
         if c.patterns is not None:
             for p in c.patterns:
                 if _re.match(p.pattern, v) is None:
-                    return False, "pattern"
+                    dims["pattern"] = False
+    except BaseException:  # noqa
+        dims["pattern"] = False
+    try:
         if c.set_of_primitives is not None:
             if not any(type(l.value) is type(v) and l.value == v for l in c.set_of_primitives.literals):
-                return False, "set"
+                dims["set"] = False
         if c.set_of_enumeration_literals is not None:
             if not any(l.name == getattr(v, "name", None) for l in c.set_of_enumeration_literals.literals):
-                return False, "set"
+                dims["set"] = False
     except BaseException:  # noqa
-        return False, "type"
+        dims["set"] = False
+    return dims
+
+
+def admit_value(c: Any, v: Any) -> Tuple[bool, str]:
+    """Do the inferred constraints `c` admit the value? (+ the first rejecting dimension)"""
+    dims = admit_dims(c, v)
+    for k in ("len", "pattern", "set"):
+        if not dims[k]:
+            return False, k
     return True, ""
 
 
@@ -1430,6 +1453,17 @@ def judge_mm(source: str, st: Any, verdict: str, raw: Any) -> List[Tuple[str, st
                         break
                     if not adm and not failing:
                         bad.append((f"C15:mm:misread:{dim}", f"{where}: value {v!r} satisfies all recognised invariants but the inferred {dim} constraint rejects it"))
+                        break
+                    # the three inferred parts one by one ("the inferred length range, pattern list and literal set admit a
+                    # value exactly when all recognised length, pattern and membership invariants hold"): a lost bound must
+                    # not hide behind a pattern that happens to reject the same values
+                    dims = admit_dims(c, v)
+                    part = next((k for k in ("len", "pattern", "set") if dims[k] != (k not in failing)), None)
+                    if part is not None and dims[part]:
+                        bad.append((f"C15:mm:constraint-missed:{part}", f"{where}: value {v!r} violates a recognised {part} invariant but the inferred {part} constraint admits it (another part rejects it)"))
+                        break
+                    if part is not None:
+                        bad.append((f"C15:mm:misread:{part}", f"{where}: value {v!r} satisfies all recognised {part} invariants but the inferred {part} constraint rejects it"))
                         break
     return bad
 
@@ -1523,6 +1557,253 @@ def skeleton_source(parent_invs: Sequence[str], child_invs: Sequence[str], small
     )
 
 
+# --------------------------------------------------------------------------- inheritance: DAGs of classes, chains of constrained primitives
+#
+# `infer_constraints_by_class` stacks, in topological order, the constraints of EVERY direct parent onto the class's
+# own ones (keyed by the type-annotation object of the inherited property), and `_infer_constraints_by_constrained_
+# primitive` does the same along the chains of constrained primitives, which the front end accepts in any declaration
+# order.  The inputs below put recognised constraints of every kind on one inherited property at several places of a
+# DAG (both parents of a diamond, a grand-parent reached through one parent only, a third parent, the class itself),
+# consistent as well as contradicting, and declare chains of constrained primitives in every order.
+
+STD_CPS: List[Tuple[str, str, List[str]]] = [
+    ("Small_text", "str", ["len(self) <= 6"]),
+    ("Tiny_text", "Small_text", ["len(self) >= 1"]),
+    ("Some_blob", "bytearray", []),
+]
+
+
+def inherit_source(classes: Sequence[Dict[str, Any]], cps: Sequence[Tuple[str, str, Sequence[str]]] = STD_CPS, cps_last: bool = False) -> str:
+    """classes = [{name, parents, props: [(name, type text)], invs: [body], abstract?}] in declaration order (parents
+    first: a constructor can only be in-lined that way); cps = [(name, base, [body])] in ANY declaration order.
+    Constructors are written canonically (call every parent that has properties with keywords, assign the own ones)."""
+    k = [0]
+
+    def invs(bodies: Sequence[str]) -> str:
+        text = ""
+        for b in bodies:
+            k[0] += 1
+            text += f'@invariant(\n    lambda self: {b},\n    "Constraint {k[0]}"\n)\n'
+        return text
+
+    by = {c["name"]: c for c in classes}
+
+    def visible(n: str) -> List[Tuple[str, str]]:
+        res: List[Tuple[str, str]] = []
+        for q in by[n]["parents"]:
+            for x in visible(q):
+                if x not in res:
+                    res.append(x)
+        return res + [tuple(x) for x in by[n]["props"]]  # type: ignore
+
+    cp_text = ["\n" + invs(bodies) + f"class {name}({base}):\n    pass\n" for name, base, bodies in cps]
+    cls_text = []
+    for c in classes:
+        allp = visible(c["name"])
+        req = [(n, t) for n, t in allp if not t.startswith("Optional[")]
+        opt = [(n, t) for n, t in allp if t.startswith("Optional[")]
+        args = ", ".join(["self"] + [f"{n}: {t}" for n, t in req] + [f"{n}: {t} = None" for n, t in opt])
+        body = []
+        for q in c["parents"]:
+            pv = visible(q)
+            if pv:
+                body.append(f"        {q}.__init__({', '.join(['self'] + [f'{n}={n}' for n, _ in pv])})\n")
+        for n, _ in c["props"]:
+            body.append(f"        self.{n} = {n}\n")
+        bases = ", ".join(c["parents"])
+        cls_text.append(
+            "\n"
+            + ("@abstract\n" if c.get("abstract") else "")
+            + invs(c["invs"])
+            + f"class {c['name']}{'(' + bases + ')' if bases else ''}:\n"
+            + "".join(f"    {n}: {t}\n" for n, t in c["props"])
+            + (f"\n    def __init__({args}) -> None:\n" + "".join(body) if allp else "    pass\n")
+        )
+    parts = [HEADER_TEXT] + (cls_text + cp_text if cps_last else cp_text + cls_text) + [FOOTER_TEXT]
+    return "\n".join(parts)
+
+
+# one inherited property constrained at several places: T = the common root, L / R = the two lines of descent that
+# meet again, D = the class where they meet (own invariants).  `err` marks the combinations that must be reported.
+KITS: List[Dict[str, Any]] = [
+    # lengths of `alpha: str`
+    {"L": ["len(self.alpha) >= 2"], "R": ["len(self.alpha) <= 5"]},
+    {"L": ["len(self.alpha) <= 3"], "R": ["len(self.alpha) >= 5"], "err": True},
+    {"L": ["len(self.alpha) == 4"], "R": ["4 == len(self.alpha)"]},
+    {"L": ["len(self.alpha) == 2"], "R": ["len(self.alpha) >= 3"], "err": True},
+    {"T": ["len(self.alpha) >= 1"], "L": ["len(self.alpha) >= 2"], "R": ["3 <= len(self.alpha)"], "D": ["len(self.alpha) <= 7"]},
+    {"L": ["len(self.alpha) <= 3"], "D": ["len(self.alpha) >= 5"], "err": True},
+    {"R": ["len(self.alpha) <= 3"], "D": ["len(self.alpha) >= 5"], "err": True},
+    {"T": ["len(self.alpha) <= 3"], "D": ["len(self.alpha) >= 5"], "err": True},
+    {"L": ["len(self.alpha) >= 2"], "R": ["len(self.alpha) <= 1"], "D": ["len(self.alpha) <= 4"], "err": True},
+    {"L": ["len(self.alpha) <= 3"], "R": ["len(self.alpha) >= 5"], "D": ["len(self.alpha) >= 1"], "err": True},
+    {"L": ["len(self.alpha) <= 6"], "R": ["len(self.alpha) <= 4"], "D": ["len(self.alpha) <= 5"]},
+    {"T": ["len(self.alpha) >= 1"], "L": ["len(self.alpha) <= 6"]},
+    {"T": ["len(self.alpha) >= 1"], "R": ["len(self.alpha) <= 6"]},
+    {"L": ["len(self.alpha) > 1 and len(self.alpha) < 9", "len(self.alpha) >= 3"], "R": ["len(self.alpha) != 4", "len(self.alpha) < 6"]},
+    # optional, list, byte array
+    {"L": ["self.beta is None or len(self.beta) >= 2"], "R": ["not (self.beta is not None) or len(self.beta) <= 5"]},
+    {"L": ["self.beta is None or len(self.beta) <= 1"], "R": ["self.beta is None or 3 <= len(self.beta)"], "err": True},
+    {"L": ["len(self.gamma) >= 1"], "R": ["len(self.gamma) <= 2"], "D": ["len(self.gamma) >= 2"]},
+    {"L": ["len(self.zeta) >= 1"], "R": ["len(self.zeta) == 3"]},
+    # patterns
+    {"L": ["matches_as(self.alpha)"], "R": ["matches_short(self.alpha)"]},
+    {"L": ["matches_ab(self.alpha)"], "R": ["matches_ab(self.alpha)"], "D": ["matches_as(self.alpha)"]},
+    {"T": ["matches_ab(self.alpha)"], "L": ["matches_as(self.alpha)"], "D": ["matches_short(self.alpha)"]},
+    {"L": ["self.beta is None or matches_as(self.beta)"], "R": ["self.beta is None or (matches_ab(self.beta) and matches_short(self.beta))"]},
+    # constant sets
+    {"L": ["self.alpha in Set_ab"], "R": ["self.alpha in Set_bc"]},
+    {"L": ["self.alpha in Set_ab"], "R": ["self.alpha in Set_ab"], "D": ["self.alpha in Set_bc"]},
+    {"T": ["self.alpha in Set_bc"], "R": ["self.alpha in Set_ab"]},
+    {"L": ["self.alpha in Set_ab"], "R": ["self.alpha in Set_c"]},  # no common literal: known finding C15-F1
+    {"L": ["self.eta in Set_warm"], "R": ["self.eta is None or self.eta in Set_cold"]},
+    # different kinds meet on one property
+    {"L": ["len(self.alpha) >= 2"], "R": ["matches_as(self.alpha)"], "D": ["self.alpha in Set_bc"]},
+    {"L": ["matches_ab(self.alpha)"], "R": ["len(self.alpha) <= 3"]},
+    {"L": ["self.alpha in Set_ab"], "R": ["len(self.alpha) >= 2"]},
+    # properties typed by constrained primitives (Small_text: len <= 6, Tiny_text: additionally len >= 1), lists of them
+    {"L": ["len(self.kappa) >= 2"], "R": ["len(self.kappa) <= 4"]},
+    {"L": ["len(self.kappa) >= 2"], "R": ["len(self.kappa) >= 9"], "err": True},
+    {"L": ["matches_as(self.kappa)"], "R": ["len(self.kappa) >= 2"]},
+    {"L": ["len(self.theta) <= 2"], "R": ["len(self.theta) >= 1"]},
+    # different properties (nothing to merge)
+    {"L": ["len(self.alpha) >= 2"], "R": ["self.beta is None or len(self.beta) <= 5"]},
+]
+
+
+def _cls(name: str, parents: Sequence[str], invs: Sequence[str] = (), props: Sequence[Tuple[str, str]] = (), abstract: bool = False) -> Dict[str, Any]:
+    return {"name": name, "parents": list(parents), "props": [tuple(x) for x in props], "invs": list(invs), "abstract": abstract}
+
+
+def dag_shapes(kit: Dict[str, Any]) -> Dict[str, List[Dict[str, Any]]]:
+    T, L, R, D = (list(kit.get(x, [])) for x in "TLRD")
+    top = _cls("Top_thing", [], T, _SKELETON_PROPS, abstract=True)
+    return {
+        # both parents constrain the property of the common root
+        "diamond": [top, _cls("Left_thing", ["Top_thing"], L), _cls("Right_thing", ["Top_thing"], R), _cls("Leaf_thing", ["Left_thing", "Right_thing"], D)],
+        "diamond-rev": [top, _cls("Left_thing", ["Top_thing"], L), _cls("Right_thing", ["Top_thing"], R), _cls("Leaf_thing", ["Right_thing", "Left_thing"], D)],
+        # a grand-parent (through a silent parent) and a parent
+        "grand": [top, _cls("Left_thing", ["Top_thing"], L), _cls("Right_thing", ["Top_thing"], R), _cls("Mid_thing", ["Left_thing"], [], [("iota", "str")]),
+                  _cls("Leaf_thing", ["Mid_thing", "Right_thing"], D)],
+        # the join is itself inherited further; the redundant edge repeats a grand-parent as a parent
+        "below": [top, _cls("Left_thing", ["Top_thing"], L), _cls("Right_thing", ["Top_thing"], R), _cls("Mid_thing", ["Left_thing", "Right_thing"], []),
+                  _cls("Leaf_thing", ["Mid_thing", "Left_thing"], D)],
+        # three parents; the first one is silent
+        "triple": [top, _cls("Other_thing", ["Top_thing"], []), _cls("Left_thing", ["Top_thing"], L), _cls("Right_thing", ["Top_thing"], R),
+                   _cls("Leaf_thing", ["Other_thing", "Left_thing", "Right_thing"], D)],
+        # one line of descent only (parent and grand-parent of a chain), beside an unrelated second parent
+        "unrelated": [top, _cls("Left_thing", ["Top_thing"], L + R), _cls("Other_thing", [], ["len(self.rho) >= 1"], [("rho", "str"), ("sigma", "Optional[Small_text]")]),
+                      _cls("Leaf_thing", ["Left_thing", "Other_thing"], D + ["len(self.rho) <= 4", "self.sigma is None or len(self.sigma) >= 2"])],
+    }
+
+
+CP_KITS: List[Tuple[str, List[List[str]], bool]] = [
+    # (constrainee, invariants per level from the root down, must be reported)
+    ("str", [["len(self) >= 1"], ["len(self) <= 7"], ["matches_ab(self)"], ["len(self) >= 2"]], False),
+    ("str", [["matches_ab(self)"], [], ["len(self) <= 5"], ["matches_as(self) and matches_short(self)"]], False),
+    ("str", [["len(self) <= 3"], [], ["len(self) >= 5"], []], True),
+    ("str", [["len(self) >= 1", "len(self) <= 8"], ["2 <= len(self)"], ["len(self) >= 3"], ["len(self) == 3"]], False),
+    ("bytearray", [["len(self) >= 1"], [], ["len(self) < 6"], ["len(self) >= 2"]], False),
+]
+CHAIN_NAMES = ["Code_a", "Code_b", "Code_c", "Code_d"]
+
+
+def cp_chain_source(kit: int, length: int, order: Sequence[int], holder_first: bool, diamond: bool = False, naming: int = 0) -> str:
+    """A chain Code_a <- Code_b <- ... of `length` constrained primitives declared in the order `order` (indices into
+    the chain), used as property, optional property, list item and optional list of a class.  `diamond`: the last one
+    inherits from the two before it, which both inherit from the first (needs length 4)."""
+    base, levels, _ = CP_KITS[kit]
+    # the names must not be correlated with the chain: alphabetical = root first (0), leaf first (1), mixed (2)
+    names = CHAIN_NAMES[:length]
+    names = names if naming % 3 == 0 else names[::-1] if naming % 3 == 1 else names[1::2] + names[0::2]
+    parents = [base] + names[: length - 1]
+    if diamond:
+        parents = [base, names[0], names[0], f"{names[1]}, {names[2]}"]
+    cps = [(names[i], parents[i], levels[i]) for i in order]
+    last, mid = names[-1], names[max(0, length - 2)]
+    holder = _cls(
+        "Holder_thing", [], [f"len(self.direct) <= 6", "self.perhaps is None or len(self.perhaps) >= 1"],
+        [("direct", last), ("perhaps", f"Optional[{last}]"), ("items", f"List[{last}]"), ("middle", mid), ("perhaps_items", f"Optional[List[{mid}]]"), ("first", names[0])],
+    )
+    user = _cls("User_thing", ["Holder_thing"], ["len(self.items) >= 1"] + ([] if base != "str" else ["matches_ab(self.middle)"]))
+    return inherit_source([holder, user], cps, cps_last=holder_first)
+
+
+def inherit_enumerated(ctx: Ctx) -> Iterator[Tuple[str, str]]:
+    """Seed-independent: every kit on both orders of the diamond's base list, every third kit on each other shape;
+    chains of 2-4 constrained primitives: the first kit in EVERY declaration order, the others in every order of three
+    and every fourth order of four; diamonds of constrained primitives in six orders."""
+    for i, kit in enumerate(KITS):
+        shapes = dag_shapes(kit)
+        for j, name in enumerate(["diamond", "diamond-rev", "grand", "below", "triple", "unrelated"]):
+            if j < 2 or (i + j) % 3 == 0 or (ctx.tier != "quick"):
+                yield inherit_source(shapes[name]), "mm-inherit-enumerated"
+    for kit in range(len(CP_KITS)):
+        n = 0
+        for length in (2, 3, 4):
+            for order in itertools.permutations(range(length)):
+                n += 1
+                if kit == 0 or length == 3 or (length == 4 and n % 4 == kit % 4) or ctx.tier != "quick":
+                    yield cp_chain_source(kit, length, order, holder_first=(n % 2 == 0), naming=n + kit), "mm-cpchain-enumerated"
+    for kit in (0, 2, 3):
+        for k, order in enumerate(([0, 1, 2, 3], [3, 2, 1, 0], [3, 0, 1, 2], [1, 3, 2, 0], [2, 1, 3, 0], [0, 3, 1, 2])):
+            yield cp_chain_source(kit, 4, order, holder_first=False, diamond=True, naming=k), "mm-cpchain-enumerated"
+
+
+def gen_inherit_source(rng: Any) -> str:
+    """Seeded: a DAG of 3-6 classes (every class after the first gets 1-3 earlier parents, so diamonds and unrelated
+    parents both occur), own properties with unique names, random recognised forms / near misses over the visible
+    properties; 2-4 constrained primitives in a chain or a diamond, declared in a shuffled order."""
+    n_cp = rng.randint(2, 4)
+    names = CHAIN_NAMES[:n_cp]
+    rng.shuffle(names)  # alphabetical order unrelated to the chain
+    stringy = rng.random() < 0.8
+    parents = ["str" if stringy else "bytearray"] + names[: n_cp - 1]
+    if n_cp == 4 and rng.random() < 0.3:
+        parents = [parents[0], names[0], names[0], f"{names[1]}, {names[2]}"]
+    cps = [(names[i], parents[i], [gen_cp_invariant(rng, stringy) for _ in range(rng.choice([0, 1, 1, 2]))]) for i in range(n_cp)]
+    if rng.random() < 0.7:
+        rng.shuffle(cps)
+    cps += list(STD_CPS)
+    type_pool = [
+        "str", "str", "Optional[str]", "bytearray", "List[str]", "Small_text", "Optional[Tiny_text]", "Color", "Optional[Color]",
+        names[-1], f"Optional[{names[-1]}]", f"List[{names[-1]}]", names[n_cp // 2], f"Optional[List[{names[0]}]]",
+    ]
+    if not stringy:
+        type_pool = [t for t in type_pool if "Code_" not in t] + [names[-1], f"List[{names[-1]}]", f"Optional[{names[1]}]"]
+    pool = list(PROP_NAMES) + ["rho", "sigma", "tau", "phi"]
+    rng.shuffle(pool)
+    cnames = ["Top_thing", "Left_thing", "Right_thing", "Mid_thing", "Other_thing", "Leaf_thing"]
+    classes: List[Dict[str, Any]] = []
+    visible: Dict[str, List[Tuple[str, str]]] = {}
+    for i in range(rng.randint(3, 6)):
+        k = 0 if i == 0 else rng.choice([1, 1, 2, 2, 3]) if rng.random() < 0.9 else 0
+        ps = sorted(rng.sample(range(i), min(k, i)))
+        if rng.random() < 0.5:
+            ps.reverse()
+        own = [(pool.pop(), rng.choice(type_pool)) for _ in range(rng.randint(2, 3) if not ps else rng.choice([0, 0, 1])) if pool]
+        vis: List[Tuple[str, str]] = []
+        for q in ps:
+            vis += [x for x in visible[cnames[q]] if x not in vis]
+        vis += own
+        visible[cnames[i]] = vis
+        bodies = [gen_invariant(rng, vis) for _ in range(rng.choice([0, 0, 1, 1, 2]))] if vis else []
+        # favour the recognised plain forms on INHERITED properties, so that the lines of descent interact
+        inherited = [x for x in vis if x not in own]
+        if inherited and rng.random() < 0.7:
+            q, t = rng.choice(inherited)
+            bt = t[9:-1] if t.startswith("Optional[") else t
+            guard = (lambda b: f"self.{q} is None or {b}") if t.startswith("Optional[") else (lambda b: b)
+            if bt == "Color":
+                bodies.append(guard(f"self.{q} in {rng.choice(ENUM_SETS)}"))
+            elif bt in ("str", "Small_text", "Tiny_text") or (bt.startswith("Code_") and stringy):
+                bodies.append(guard(rng.choice([_cmp_text(rng, f"self.{q}"), f"{rng.choice(PATTERN_FUNCS)[0]}(self.{q})", f"self.{q} in {rng.choice(STR_SETS)}" if bt == "str" else _cmp_text(rng, f"self.{q}")])))
+            else:
+                bodies.append(guard(_cmp_text(rng, f"self.{q}")))
+        classes.append(_cls(cnames[i], [cnames[q] for q in ps], bodies, own, abstract=rng.random() < 0.3))
+    return inherit_source(classes, cps, cps_last=rng.random() < 0.3)
+
+
 def mm_inputs(ctx: Ctx) -> Iterator[Tuple[str, str]]:
     for c in corpus(ID):
         if c.get("fn") == "mm":
@@ -1535,12 +1816,43 @@ def mm_inputs(ctx: Ctx) -> Iterator[Tuple[str, str]]:
         yield skeleton_source(p + c, []), "mm-enumerated"
     for s, t in CP_VARIANTS:
         yield skeleton_source(["len(self.kappa) >= 1"], ["len(self.theta) <= 4"], s, t), "mm-enumerated"
+    yield from inherit_enumerated(ctx)
     for _ in range(ctx.n(500, 12000)):
         yield gen_source(ctx.rng), "mm-random"
+    for _ in range(ctx.n(110, 2500)):
+        yield gen_inherit_source(ctx.rng), "mm-inherit-random"
 
 
 def _norm(x: str) -> str:
     return "crash" if x.startswith("crash:") else x
+
+
+def _shape_tags(st: Any) -> List[str]:
+    """Which inheritance situations a symbol table contains (for the coverage record)."""
+    tags = set()
+    constrained = lambda c: any(i.specified_for is c for i in c.invariants)  # noqa: E731
+    for cls in st.classes:
+        if len(cls.inheritances) >= 2:
+            lines = [{id(p)} | set(p.ancestor_id_set) for p in cls.inheritances]
+            shared = any(lines[i] & lines[j] for i in range(len(lines)) for j in range(i))
+            tags.add("class-diamond" if shared else "class-unrelated-parents")
+            n = sum(1 for p in cls.inheritances if constrained(p) or any(constrained(a) for a in p.ancestors))
+            if shared and n >= 2:
+                tags.add("class-two-constrained-lines-of-descent")
+        if len(cls.ancestors) >= 2 and len(cls.inheritances) == 1:
+            tags.add("class-chain>=3")
+    order = {id(cp): i for i, cp in enumerate(st.constrained_primitives)}
+    for cp in st.constrained_primitives:
+        depth = len(cp.ancestors)
+        if depth >= 2:
+            tags.add("cp-chain>=3")
+        if any(order[id(p)] > order[id(cp)] for p in cp.inheritances):
+            tags.add("cp-declared-before-parent")
+            if depth >= 2:
+                tags.add("cp-declared-before-parent-with-grand-parent")
+        if len(cp.inheritances) >= 2:
+            tags.add("cp-multiple-parents")
+    return sorted(tags)
 
 
 def run_mm(ctx: Ctx, with_model: bool, sources: Optional[Sequence[Tuple[str, str]]] = None) -> List[Dict[str, Any]]:
@@ -1560,6 +1872,8 @@ def run_mm(ctx: Ctx, with_model: bool, sources: Optional[Sequence[Tuple[str, str
             continue
         verdict, dump, raw = impl_infer(st, wire)
         items.append({"src": src, "stream": stream, "st": st, "line": line, "verdict": verdict, "dump": dump, "raw": raw})
+        for tag in _shape_tags(st):
+            ctx.hit(f"mm:shape:{tag}:{_norm(verdict)}")
     mouts = ctx.model([it["line"] for it in items]) if with_model else []
     results = []
     for k, it in enumerate(items):
@@ -1601,7 +1915,14 @@ def correspond(ctx: Ctx) -> None:
         "length 4 over 12 (quick) / 18 (thorough) bounds + seeded random longer lists; all pairs of 29 small ranges + random; "
         "all tuples of <=3 literal lists of length <=2 over 3 values (with repetitions) for both set kinds + random; "
         "meta-models: one skeleton text per recognised form / near miss (parent and child position), parent/child pairs, "
-        "constrained-primitive variants, then seeded random texts (1-4 classes, chains, 14 property types). "
+        "constrained-primitive variants; inheritance: 35 kits (one inherited property constrained by two lines of descent, "
+        "the root and the join: every constraint kind, consistent and contradicting) on both base-list orders of a diamond "
+        "and on a third (quick) / all (thorough) of four further DAG shapes (grand-parent + parent, join inherited further "
+        "with a redundant edge, three parents, unrelated second parent); chains of 2-4 constrained primitives in every "
+        "declaration order (first kit; the other four in every order of three and a quarter of the orders of four; all in "
+        "thorough), diamonds of constrained primitives, each used as property, optional property, list item and optional "
+        "list; then seeded random texts (1-4 classes, chains, 14 property types) and seeded random DAGs of 3-6 classes over "
+        "shuffled chains/diamonds of constrained primitives. "
         "non-trivial = more than one bound/list resp. a text with at least one invariant; distinct by request value"
     )
     ctx.assumptions.append(
